@@ -134,6 +134,8 @@ type OtherT struct{ A []int }
 	// variadic signature
 	add("variadic-context-and-delegate", scratch.Tree{"p/p.go": "package p\n\ntype In struct{ A int }\ntype Out struct{ A int }\ntype W struct{ X In }\ntype WT struct{ X Out }\n\n// goverter:context tags\nfunc Tagged(s In, tags ...string) Out { return Out{A: s.A + len(tags)} }\n\nfunc Many(xs ...In) []Out { return nil }\n\n// goverter:converter\n// goverter:extend Tagged\ntype C interface {\n\t// goverter:context tags\n\tConvert(source W, tags ...string) WT\n}\n\n// goverter:converter\n// goverter:extend Many\ntype D interface {\n\tAll(source ...In) []Out\n}\n"},
 		map[string]string{"p/generated/zz_assert.go": "//go:build !goverter\n\npackage generated\n\nimport up \"MODULE/p\"\n\nvar _ up.C = &CImpl{}\nvar _ up.D = &DImpl{}\n"})
+	// blank fields (`_ T`, padding) cannot be assigned: in same-package output they are accessible like every unexported field
+	add("blank-struct-fields", scratch.Tree{"p/p.go": "package p\n\ntype In struct {\n\tA int\n\t_ int\n}\ntype Out struct {\n\tA int\n\t_ int\n}\n\n// goverter:variables\nvar (\n\tConv func(source In) Out\n\t// goverter:update target\n\tUpd func(source In, target *Out)\n)\n"}, map[string]string{})
 	add("recursive-helper-gains-context-late", scratch.Tree{"p/p.go": "package p\n\ntype V struct{ N int }\ntype W struct{ N int }\ntype S struct {\n\tKid *S2\n\tVal V\n}\ntype S2 struct{ Back *S }\ntype T struct {\n\tKid *T2\n\tVal W\n}\ntype T2 struct{ Back *T }\ntype Outer struct{ X S }\ntype OuterT struct{ X T }\n\n// goverter:context tag\nfunc VToW(v V, tag string) W { return W{N: v.N} }\n\n// goverter:converter\n// goverter:extend VToW\ntype C interface {\n\t// goverter:context tag\n\tConvert(source Outer, tag string) OuterT\n}\n"}, map[string]string{})
 	return out
 }
@@ -147,7 +149,7 @@ var buildClasses = []struct {
 	{regexp.MustCompile(`cannot compare|struct containing .* cannot be compared|invalid operation: .* != .*\(struct`), "D7-uncomparable-zero-guard"},
 	{regexp.MustCompile(`Impl redeclared in this block`), "D4-redeclared"},
 	{regexp.MustCompile(`undefined: p\.lvDebugHidden`), "D24-unexported-enum-member"},
-	{regexp.MustCompile(`\b(c|i|j|k|l|m|n|o|p|q|r|s|t|u|v|w|x|y|z|source|target|context|key|value)\.\w+ (is not a type|undefined)`), "D8-import-alias-shadowed"},
+	{regexp.MustCompile(`\b(c|i|j|k|l|m|n|o|p|q|r|s|t|u|v|w|x|y|z|source|target|context|key|value)\.[A-Za-z]\w* (is not a type|undefined)`), "D8-import-alias-shadowed"},
 }
 
 func runC01(e *env) error {
